@@ -4,6 +4,7 @@
 -/
 import ErgoProofs.Lemmas.JsonThm
 import ErgoProofs.Lemmas.ReachInv
+import ErgoProofs.Lemmas.CodecInst
 namespace Ergo
 
 /-- the JSON string codec round-trips every valid Unicode text, with the log's HTML-escaping encoder and with the
@@ -68,5 +69,27 @@ theorem C17_through_compact (log : List Event) (h : ReachOK log) :
   cases h1' : g'.find? id <;> cases h2' : g.find? id <;> simp [h1', h2'] at this ⊢
   simp [obsTask] at this
   exact ⟨this.2.2.2.2.2.1, this.2.2.2.2.2.2.1⟩
+
+
+/-- byte level: the line written for an event (JSON escaping with HTML escapes, UTF-8) decodes — `bytes.TrimSpace`, `json.Unmarshal` of the
+    envelope and of the payload — to that very event: every title and body, whatever characters it holds, comes back as it went in -/
+theorem C17_line_roundtrip (ets : Event → String) (e : Event) (h : Codec.Wf e) :
+    Codec.classifyLine (Codec.encodeEvent ets e) = .ev e :=
+  Codec.classify_encode ets e h
+
+/-- in particular for a creation and for title / body updates, with any text -/
+theorem C17_text_events_roundtrip (ets : Event → String) (id : Id) (title body : String) (t : Time) (ht : t < Time.maxT) :
+    Codec.classifyLine (Codec.encodeEvent ets (.newItem false id "" "" .todo title body (some t))) = .ev (.newItem false id "" "" .todo title body (some t)) ∧
+    Codec.classifyLine (Codec.encodeEvent ets (.title id title (some t))) = .ev (.title id title (some t)) ∧
+    Codec.classifyLine (Codec.encodeEvent ets (.body id body (some t))) = .ev (.body id body (some t)) :=
+  ⟨Codec.classify_encode ets _ ⟨rfl, ht⟩, Codec.classify_encode ets _ ht, Codec.classify_encode ets _ ht⟩
+
+/-- no byte below 0x20 in a written line: a newline or tab in a title cannot split or shift the line -/
+theorem C17_line_has_no_control_bytes (ets : Event → String) (e : Event) : ∀ b ∈ Codec.encodeEvent ets e, (32 : UInt8) ≤ b :=
+  Codec.clean_encodeEvent ets e
+
+/-- UTF-8: text survives encoding and (lossy) decoding unchanged -/
+theorem C17_utf8_roundtrip (cs : List Char) : Codec.utf8DecLossy (Codec.utf8Enc cs) = cs :=
+  Codec.utf8DecLossy_encoded cs
 
 end Ergo
